@@ -296,3 +296,50 @@ func Kind(r *Rpc) string {
 		return "EMPTY"
 	}
 }
+
+// Peer is a scripted endpoint: it reads everything arriving on its end (always
+// draining, recording each envelope) and lets React answer.
+type Peer struct {
+	End   *End
+	mu    sync.Mutex
+	Got   []*Rpc
+	React func(p *Peer, in *Rpc) // called in the peer's reader goroutine
+	done  chan struct{}
+}
+
+func NewPeer(ctx context.Context, e *End, react func(p *Peer, in *Rpc)) *Peer {
+	p := &Peer{End: e, React: react, done: make(chan struct{})}
+	go func() {
+		defer close(p.done)
+		for {
+			r, err := e.Read(ctx)
+			if err != nil {
+				return
+			}
+			p.mu.Lock()
+			p.Got = append(p.Got, proto.Clone(r).(*Rpc))
+			p.mu.Unlock()
+			if p.React != nil {
+				p.React(p, r)
+			}
+		}
+	}()
+	return p
+}
+
+func (p *Peer) Send(ctx context.Context, rs ...*Rpc) error {
+	for _, r := range rs {
+		if err := p.End.Write(ctx, r); err != nil {
+			return err
+		}
+	}
+	return nil
+}
+
+func (p *Peer) Received() []*Rpc {
+	p.mu.Lock()
+	defer p.mu.Unlock()
+	return append([]*Rpc(nil), p.Got...)
+}
+
+func (p *Peer) Done() <-chan struct{} { return p.done }
